@@ -71,6 +71,32 @@ pub fn dump<'tcx>(tcx: TyCtxt<'tcx>, krate: &str, config: &str) -> J {
         fns.push(cx.func(ldid, k));
     }
     root.set("fns", J::Arr(fns));
+
+    // small foreign enums that appear as the type of a local (e.g. proc_macro2::Spacing): variant names and
+    // discriminants, so that rules can name their variants instead of trusting an index
+    let mut ext = J::obj();
+    let mut seen: Vec<DefId> = Vec::new();
+    for ldid in tcx.hir_body_owners() {
+        if !is_fn_like(tcx.def_kind(ldid)) || !tcx.is_mir_available(ldid.to_def_id()) {
+            continue;
+        }
+        let body = tcx.instance_mir(ty::InstanceKind::Item(ldid.to_def_id()));
+        for decl in body.local_decls.iter() {
+            let mut ty = decl.ty;
+            while let ty::Ref(_, inner, _) = ty.kind() {
+                ty = *inner;
+            }
+            if let ty::Adt(adt, _) = ty.kind() {
+                let did = adt.did();
+                if did.is_local() || !adt.is_enum() || adt.variants().len() > 16 || seen.contains(&did) {
+                    continue;
+                }
+                seen.push(did);
+                ext.set(&path_str(tcx, did), cx.adt(did));
+            }
+        }
+    }
+    root.set("ext_adts", ext);
     root
 }
 
